@@ -175,6 +175,7 @@ type goCtx struct {
 	results map[string]string // result names -> Go variables
 	alias   map[string]string // macro parameter -> identifier of the enclosing function it stands for
 	ghosts  map[string]bool   // input-only ghost variables (read from the model into gh_<name>)
+	region  bool              // region replay: locals of the region are visible, ghosts are instrumented variables
 	fail    string
 }
 
@@ -265,6 +266,9 @@ func (c *goCtx) leafSrc(e ast.Expr) (string, bool) {
 			return r, true
 		}
 		if c.ghosts[e.Name] {
+			if c.old && c.region {
+				return "old_gh_" + e.Name, true
+			}
 			return "gh_" + e.Name, true
 		}
 		if c.ptrPars[e.Name] {
@@ -282,6 +286,10 @@ func (c *goCtx) leafSrc(e ast.Expr) (string, bool) {
 			case *types.Const, *types.Var:
 				return e.Name, true
 			}
+		}
+		if c.region && !c.old {
+			// a variable declared inside the region (visible where the clause is evaluated)
+			return e.Name, true
 		}
 		return "", false
 	case *ast.SelectorExpr:
@@ -770,7 +778,7 @@ func tryReplay(prog *Program, cs *ContractSet, prop string, r ObResult, rep *Rep
 		return
 	}
 	if x.uc.Region != "" {
-		rep.ReplayLog = "no replay: the unit is a region of a larger function (its entry state is not constructible from a test); the model is recorded"
+		tryReplayRegion(prog, cs, prop, r, rep)
 		return
 	}
 	fu := x.unit
@@ -998,7 +1006,7 @@ func tryReplay(prog *Program, cs *ContractSet, prop string, r ObResult, rep *Rep
 		if ci > 30 {
 			break
 		}
-		res := Solve(ob.ScriptWith(cse, gv), 20, false)
+		res := Solve(ob.ScriptWith(append(append([]*Term{}, cse...), rep.extra...), gv), 20, false)
 		if res.Status == "sat" && len(res.Model) > 0 {
 			model = res.Model
 			break
@@ -1007,6 +1015,16 @@ func tryReplay(prog *Program, cs *ContractSet, prop string, r ObResult, rep *Rep
 	if model == nil {
 		rep.ReplayLog = "no replay: no solver returned values for the entry state"
 		return
+	}
+	rep.scalars = map[*Term]string{}
+	rep.scalarKind = map[*Term]SortKind{}
+	for _, l := range leaves {
+		if l.term.Op == "const" {
+			if v, ok := model[termString(l.term)]; ok {
+				rep.scalars[l.term] = v
+				rep.scalarKind[l.term] = l.kind
+			}
+		}
 	}
 	rep.Model = map[string]string{}
 	var assign strings.Builder
@@ -1365,3 +1383,84 @@ func replayRecorded(rep *Replay, path string) int {
 }
 
 func cmdSelftest(args []string) int { return runSelftest(args) }
+
+// ---------- encoder cross-check (thorough tier) ----------
+//
+// For a whole-function unit the solver is asked for entry states that satisfy the preconditions (up to three, pairwise
+// different in at least one scalar input); the REAL function is run on each and every postcondition the check has
+// PROVED is evaluated on the observed result. A proved clause that is observed false (with all evaluable preconditions
+// true) means the translation or a contract is unsound (or depends on float64 rounding): the check is reported broken.
+
+type crossCheck struct {
+	Unit      string   `json:"unit"`
+	Models    int      `json:"entry_states_run"`
+	Evaluated int      `json:"clause_evaluations"`
+	Held      bool     `json:"all_proved_clauses_held_on_the_real_code"`
+	Failed    []string `json:"failed,omitempty"`
+	Note      string   `json:"note,omitempty"`
+}
+
+func encoderCrossCheck(prog *Program, cs *ContractSet, prop string, cover *Obligation) crossCheck {
+	cc := crossCheck{Unit: cover.Unit, Held: true}
+	var block []*Term
+	for round := 0; round < 3; round++ {
+		rep := &Replay{Property: prop, Obligation: cover.Name, extra: block}
+		tryReplay(prog, cs, prop, ObResult{Ob: cover, Res: SolveResult{Status: "sat"}}, rep, 20)
+		if rep.TestSource == "" {
+			if round == 0 {
+				cc.Note = clip(rep.ReplayLog, 200)
+			}
+			break
+		}
+		cc.Models++
+		pre := true
+		var bad []string
+		n := 0
+		for _, l := range strings.Split(rep.ReplayLog, "\n") {
+			if strings.Contains(l, "clause=requires:") && !strings.HasSuffix(l, "result=true") {
+				pre = false
+			}
+			if strings.Contains(l, "clause=ensures:") {
+				n++
+				if strings.HasSuffix(l, "result=false") {
+					bad = append(bad, strings.TrimPrefix(l, "HVC-REPLAY "))
+				}
+			}
+		}
+		if pre && !strings.Contains(rep.ReplayLog, "call=panic") {
+			cc.Evaluated += n
+			if len(bad) > 0 {
+				cc.Held = false
+				cc.Failed = append(cc.Failed, bad...)
+			}
+		}
+		// block this model on its scalar inputs
+		var diff []*Term
+		cnt := 0
+		for t, v := range rep.scalars {
+			k := rep.scalarKind[t]
+			if cnt >= 12 {
+				break
+			}
+			switch k {
+			case SInt, SReal:
+				if r, ok := ratOfSexp(v); ok {
+					lit := RealLit(r)
+					if k == SInt {
+						if !r.IsInt() {
+							continue
+						}
+						lit = BigIntLit(r.Num())
+					}
+					diff = append(diff, Ne(t, lit))
+					cnt++
+				}
+			}
+		}
+		if len(diff) == 0 {
+			break
+		}
+		block = append(block, Or(diff...))
+	}
+	return cc
+}
